@@ -14,6 +14,9 @@ Obligations
                              `t_n(auto_aiter(..))` is iterated directly / handed to AsyncLoopContext: DESIGN F22.)
                              An include without context iterates the stored `_body_stream` list, not a generator.
   C36.emit.close.others.<visitor>   no other visitor emits a call of a render/block function or defines a generator
+  C36.emit.await.visit_Filter / visit_Test   async mode: on EVERY path (filter known / unknown at compile time, marked async variant or not, coroutine
+                             function or not) the filter / test call is emitted as `await auto_await(<call>)`; sync mode: never awaited
+  C36.native.awaited         bounded: filters / tests that return awaitables in every disguise are awaited, no 'never awaited' warning
   C36.generate_async         Template.generate_async: the root generator is created once and iterated only inside
                              `async with aclosing(agen)`; aclosing is contextlib's (dependency spec: closes on normal
                              exit, exception, early close (GeneratorExit) and cancellation)
@@ -268,6 +271,161 @@ def others_pred(sc, tree, ph, txt):
 def replay_filter(w=None):
     problems, n = native_close(only=["for_filter", "for_filter_loopvar", "for_filter_recursive"])
     return (bool(problems), "; ".join(problems[:3]) or f"no generator left unclosed in {n} async scenarios of filtered loops")
+
+
+# ------------------------------------------------------------------------------------------ filters / tests are awaited
+
+def cfg_callable_model(I):
+    """attribute model of a filter / test function object known at compile time: an opaque callable whose
+    `jinja_async_variant` marker and coroutine-function-ness are unconstrained (every combination is explored)"""
+    import inspect as _inspect
+    from pyvc.values import Sym, fresh
+    base = I.specs.get("getattr_obj")
+
+    def getattr_obj(I_, st, args, kwargs, node):
+        o, name = args[0], args[1]
+        if isinstance(o, Sym) and "filter_func" in o.tags and name in ("jinja_async_variant", "jinja_pass_arg", "__wrapped__", "func"):
+            if name == "jinja_async_variant":
+                s2 = st.fork()
+                st.note(f"{o.t}.jinja_async_variant is True")
+                s2.note(f"{o.t}.jinja_async_variant is absent")
+                st.assume(z3.Bool("func.jinja_async_variant"))
+                s2.assume(z3.Not(z3.Bool("func.jinja_async_variant")))
+                from pyvc.interp import Raised
+                from pyvc.values import Exc
+                return [(st, True), (s2, Raised(Exc(AttributeError, (name,), origin=getattr(node, "lineno", None))))]
+            return None
+        return base(I_, st, args, kwargs, node) if base is not None else None
+
+    I.specs["getattr_obj"] = getattr_obj
+    for fn, flag in ((_inspect.iscoroutinefunction, "func.iscoroutinefunction"), (_inspect.isasyncgenfunction, "func.isasyncgenfunction"),
+                     (_inspect.isawaitable, "func.isawaitable")):
+        def h(I_, st, args, kwargs, node, flag=flag):
+            s2 = st.fork()
+            st.assume(z3.Bool(flag))
+            s2.assume(z3.Not(z3.Bool(flag)))
+            return [(st, True), (s2, False)]
+        I.specs[("fn", id(fn))] = h
+    import asyncio as _asyncio
+    I.specs[("fn", id(_asyncio.iscoroutinefunction))] = I.specs[("fn", id(_inspect.iscoroutinefunction))]
+
+
+def awaited_pred(sc, tree, ph, txt):
+    """async mode: the call of the filter / test function is emitted as  await auto_await(<call>)  on every path,
+    whatever is known about the callable at compile time (it may return an awaitable without being a coroutine function);
+    sync mode: no await"""
+    if sc.outcome == "raise":
+        return []
+    a, s_ = mode_of(sc, None)
+    if not (a or s_):
+        return ["path does not decide environment.is_async"]
+
+    def is_ft_call(n):
+        if not (isinstance(n, ast.Call) and isinstance(n.func, ast.Name)):
+            return False
+        p = ph.get(n.func.id)
+        return isinstance(p, tuple) and p[0] == "ident" and str(p[1]).startswith(("t_filter", "t_test"))
+
+    par = emit.parents(tree)
+    calls = [n for n in ast.walk(tree) if is_ft_call(n)]
+    fails = []
+    if len(calls) != 1:
+        fails.append(f"[await:filter-call-count-{len(calls)}]")
+    for c in calls:
+        p1 = par.get(c)
+        p2 = par.get(p1) if p1 is not None else None
+        wrapped = isinstance(p1, ast.Call) and emit.call_name(p1) == "auto_await" and p1.args == [c] and not p1.keywords and isinstance(p2, ast.Await)
+        if a and not wrapped:
+            fails.append("[await:filter-or-test-call-not-awaited] in async mode the result of a filter / test call is used without `await auto_await(...)`: "
+                         "a callable that returns an awaitable is never awaited")
+        if s_ and (wrapped or any(isinstance(x, ast.Await) for x in ast.walk(tree))):
+            fails.append("[await:await-in-sync-mode]")
+    return fails
+
+
+def native_awaited(w=None):
+    """async renders with filters / tests that return awaitables in every disguise: the value is awaited, and no
+    'coroutine ... was never awaited' warning is emitted"""
+    import asyncio
+    import functools
+    import gc
+    import warnings
+    from jinja2 import Environment
+    problems = []
+
+    async def up(v):
+        await asyncio.sleep(0)
+        return str(v).upper()
+
+    def deco(f):
+        @functools.wraps(f)
+        def inner(*a, **k):
+            return f(*a, **k)
+        return inner
+
+    class Obj:
+        async def __call__(self, v):
+            return str(v).upper()
+
+    async def is_big(v):
+        return v > 1
+
+    variants = {"async def": up, "decorated": deco(up), "lambda": lambda v: up(v), "partial": functools.partial(up), "callable object": Obj()}
+    tests = {"async def": is_big, "lambda": lambda v: is_big(v), "decorated": deco(is_big)}
+    for kind, f in variants.items():
+        for src, want in (("{{ v|f }}", "AB"), ("{{ 'ab'|f }}", "AB"), ("{% if c %}{{ v|f }}{% endif %}", "AB"), ("{{ (v|f)|lower }}", "ab"),
+                          ("{% filter f %}ab{% endfilter %}", "AB"), ("{% for x in [v]|map('f') %}{{ x }}{% endfor %}", None)):
+            env = Environment(enable_async=True)
+            env.filters["f"] = f
+            with warnings.catch_warnings(record=True) as ws:
+                warnings.simplefilter("always")
+                try:
+                    out = asyncio.run(env.from_string(src).render_async(v="ab", c=True))
+                except Exception as ex:
+                    out = f"{type(ex).__name__}: {ex}"
+                gc.collect()
+            never = [str(x.message) for x in ws if "never awaited" in str(x.message)]
+            if want is not None and out != want:
+                problems.append(f"[runtime] filter ({kind}) in {src!r}: rendered {out!r} (expected {want!r}); warnings {never[:1]}")
+            elif want is not None and never:
+                problems.append(f"[fold] filter ({kind}) in {src!r} renders correctly, but compiling it calls the filter on the constant and drops the awaitable: {never[0]}")
+    for kind, f in tests.items():
+        for src, want in (("{{ v is big }}", "True"), ("{% if v is big %}y{% else %}n{% endif %}", "y"), ("{{ 1 is big }}", "False")):
+            env = Environment(enable_async=True)
+            env.tests["big"] = f
+            with warnings.catch_warnings(record=True) as ws:
+                warnings.simplefilter("always")
+                try:
+                    out = asyncio.run(env.from_string(src).render_async(v=2))
+                except Exception as ex:
+                    out = f"{type(ex).__name__}: {ex}"
+                gc.collect()
+            never = [str(x.message) for x in ws if "never awaited" in str(x.message)]
+            if out != want:
+                problems.append(f"[runtime] test ({kind}) in {src!r}: rendered {out!r} (expected {want!r}); warnings {never[:1]}")
+            elif never:
+                problems.append(f"[fold] test ({kind}) in {src!r} renders correctly, but compiling it calls the test on the constant and drops the awaitable: {never[0]}")
+    if w and w.get("class"):
+        problems = [p_ for p_ in problems if p_.startswith(f"[{w['class']}]")]
+    return (bool(problems), "; ".join(problems[:3]) or "every filter / test returning an awaitable is awaited in async mode")
+
+
+def awaited_standin(task, tier, seed):
+    t0 = time.time()
+    task.bound_text = ("5 kinds of filter callables (async def, functools.wraps-decorated, lambda, functools.partial, object with async __call__) x 6 template forms "
+                       "and 3 kinds of test callables x 3 forms, rendered with render_async; oracle: the awaited value is rendered and no "
+                       "'coroutine ... was never awaited' RuntimeWarning is emitted")
+    rs = []
+    for cls, name in (("runtime", "C36.native.awaited.runtime"), ("fold", "C36.native.awaited.constant_fold")):
+        v, d = native_awaited({"class": cls})
+        rs.append(Res(name, "refuted" if v else "bounded-ok", "native", time.time() - t0, d[:700], "bounded", witness={"class": cls} if v else None))
+    task.stats = {"seconds": round(time.time() - t0, 2)}
+    return rs
+
+
+def awaited_key(res):
+    kinds = sorted(set(re.findall(r"(filter|test) \(([\w ]+)\)", res.detail or "")))
+    return res.name.rsplit(".", 1)[-1] + ":" + ",".join(sorted({k for k, _ in kinds}))
 
 
 def finding_key(res):
@@ -623,7 +781,10 @@ TASKS = (
                   buffers=(None,), replay_fn=replay_filter, min_paths=8, env_fields={"is_async": True}, node_fields=_for_fields(True))),
      _mk(TemplateEmitTask("C36", "C36.emit.close.visit_Template", template_pred, replay_fn=replay_close, min_paths=8, n_blocks=1)),
      ]
-    + [_mk(t) for t in all_visitor_tasks("C36", "C36.emit.close.others", others_pred, replay_fn=replay_close, only=OTHERS, buffers=(None,))]
+    + [_mk(t) for t in all_visitor_tasks("C36", "C36.emit.close.others", others_pred, replay_fn=replay_close, only=OTHERS, buffers=(None,), configure=cfg_callable_model)]
+    + [_mk(EmitTask("C36", f"C36.emit.await.visit_{nm}", f"jinja2.compiler:CodeGenerator.visit_{nm}", getattr(N, nm), awaited_pred, mode="expr",
+                    buffers=(None,), replay_fn=native_awaited, min_paths=8, configure=cfg_callable_model)) for nm in ("Filter", "Test")]
+    + [_mk(FnTask("C36", "C36.native.awaited", awaited_standin, "bounded", native_awaited), awaited_key)]
     + [FnTask("C36", "C36.environment", environment_tasks, "path", replay_close)]
     + [_mk(FnTask("C36", "C36.native", standin, "bounded", standin_replay), standin_key)]
 )
